@@ -14,8 +14,8 @@ INFO = {
         'per path z3 decides that  sum_i (sum_j dmu_ij)/(sum_j sigma_ij^2+tau^2) != 0  (Thurstone-Mosteller: exceeds the '
         'sum over tied pairs of 2*kappa/c_iq^2) is unsatisfiable. A sat answer is replayed on the real float code before it is reported.'),
     'bounds': {
-        'quick': 'PL/BT: shapes (1,1),(2,1),(1,1,1) x all 3/3/13 weak orders, (2,2) x 3; TM: (1,1) x 3 orders, (2,1) strict orders',
-        'thorough': 'PL/BT: + (1,1,1,1) x 75 weak orders, (1,2,1), (2,2); PL 5 single-player teams strict; TM: (1,1),(2,1) all orders, TM-part (1,1,1) strict',
+        'quick': 'PL/BT: shapes (1,1),(2,1),(1,1,1) x all 3/3/13 weak orders, (2,2) x 3; TM: (1,1) x 3 orders, (2,1) strict orders, (1,1,1) strict: two orders partial pairing, one order full pairing',
+        'thorough': 'PL/BT: + (1,1,1,1) x 75 weak orders, (1,2,1), (2,2); PL 5 single-player teams strict; TM: (1,1),(2,1) all orders, (1,1,1) strict orders, TM-part (1,1,1) with one tie',
     },
     'outside': ['IEEE rounding (the identity is decided over the reals; floats only in replays)',
                 'more than 4 teams (PL: 5) / more than 2 players per team; TM full pairing with 3+ teams'],
@@ -56,9 +56,15 @@ def jobs(tier):
         add(key, (2, 1), (1, 0), 600, 120)
         if tier == 'thorough':
             add(key, (2, 1), (0, 0), 1500, 600)
+    # Thurstone-Mosteller with three teams (the pair constant c_iq differs from the game constant c only from 3 teams on)
+    add('tmp', (1, 1, 1), (0, 1, 2), 900, 200)
+    add('tmp', (1, 1, 1), (2, 0, 1), 900, 200)
+    add('tmf', (1, 1, 1), (0, 1, 2), 1200, 500)
     if tier == 'thorough':
-        add('tmp', (1, 1, 1), (0, 1, 2), 1800, 900)
-        add('tmp', (1, 1, 1), (2, 0, 1), 1800, 900)
+        for W in [(1, 0, 2), (2, 1, 0), (1, 2, 0)]:
+            add('tmp', (1, 1, 1), W, 1800, 400)
+            add('tmf', (1, 1, 1), W, 2400, 900)
+        add('tmp', (1, 1, 1), (1, 0, 1), 2400, 900)
     return out
 
 
